@@ -139,7 +139,7 @@ Proof.
     destruct toy_parse_laws as (A & B & C & D).
     split; [exact A|]. split; [exact B|]. split; [exact C|]. split; [exact C|]. split; [exact D|exact D].
   - cbv zeta. split; [vm_compute; reflexivity|]. split; [vm_compute; reflexivity|]. split; [vm_compute; reflexivity|].
-    eexists. split; vm_compute; reflexivity.
+    eexists. split; [vm_compute; reflexivity|vm_compute; reflexivity].
 Qed.
 
 (* string and byte-string constants need no condition on what follows and fuel 1
@@ -207,10 +207,10 @@ Example parse_print_atom_nonvacuous :
                     | TVar x => var_lex_valid x
                     end) args = true /\
   (exists l, parse_term_all toy_parse_float (print_atom toy_float print_number print_number (new_atom (bs "foo.bar:baz_1") args))
-             = POk (PApply (bs "foo.bar:baz_1") l) [] /\ length l = 5%nat).
+             = POk (PApply (bs "foo.bar:baz_1") l) [] /\ List.length l = 5%nat).
 Proof.
   cbv zeta. split; [vm_compute; reflexivity|]. split; [vm_compute; reflexivity|].
-  eexists. split; vm_compute; reflexivity.
+  eexists. split; [vm_compute; reflexivity|vm_compute; reflexivity].
 Qed.
 
 (* ---- the clause level ----------------------------------------------------------
